@@ -245,6 +245,11 @@ def _make_node(loader, node, node_type=ConfigNode, kwargs=None, data_arg_name=No
 
     kwargs.setdefault('source_file', loader.context.get_current_file())
 
+    if node_type is ConfigNode and isinstance(data, ConfigNode) and data.ayns.value is None:
+        # an explicit null under a generic tag: build the node from None directly, wrapping the
+        # already-built node again would silently drop "delete", "allow_new", "safe" and "metadata"
+        data = None
+
     if is_dict and not dict_is_data:
         kwargs.update(data)
         return node_type(**kwargs)
